@@ -322,7 +322,58 @@ func vjRun(nsub, nmsg, nshut int, cancel bool, clientFaults bool, replayer int, 
 		})
 	}
 	s.unfinished = verifRunThreads(verifParam("STEPS", 400))
+	if verifParam("OUTCOME", 0) == 1 {
+		verifOutcome(s.summary())
+	}
 	return s
+}
+
+func vjErrName(e error) string {
+	switch e {
+	case nil:
+		return "nil"
+	case vjErrSend:
+		return "send"
+	case vjErrFlush:
+		return "flush"
+	case vjErrPut:
+		return "put"
+	case vjErrReplay:
+		return "replay"
+	case ErrProviderClosed:
+		return "closed"
+	}
+	return "other"
+}
+
+// summary: what each party observed, independent of how independent events were interleaved.
+func (s *vjScenario) summary() string {
+	out := "unfinished=" + strconv.Itoa(s.unfinished)
+	if verifCrashed() {
+		out += " crashed"
+	}
+	for i := 0; i < s.nsub; i++ {
+		out += " S" + strconv.Itoa(i) + "["
+		for _, e := range s.env.log {
+			if (e.kind == vjSend || e.kind == vjFlush) && e.i == i {
+				out += strconv.Itoa(e.kind) + ":" + strconv.Itoa(e.m) + ":" + vjErrName(e.err) + ","
+			}
+		}
+		out += "]ret=" + strconv.FormatBool(s.env.returned[i]) + ":" + vjErrName(s.subErr[i])
+	}
+	for k := 0; k < s.nmsg; k++ {
+		out += " P" + strconv.Itoa(k) + "=" + strconv.FormatBool(s.pubDone[k]) + ":" + vjErrName(s.pubErr[k])
+	}
+	for d := 0; d < s.nshut; d++ {
+		out += " D" + strconv.Itoa(d) + "=" + strconv.FormatBool(s.shutDone[d]) + ":" + vjErrName(s.shutErr[d])
+	}
+	out += " L["
+	for _, e := range s.env.log {
+		if e.kind == vjPut || e.kind == vjReplay {
+			out += strconv.Itoa(e.kind) + ":" + strconv.Itoa(e.i) + ":" + strconv.Itoa(e.m) + ","
+		}
+	}
+	return out + "]"
 }
 
 func (s *vjScenario) pos(kind, i, m int) int {
